@@ -640,6 +640,13 @@ func (c *Ctx) c02NoRawBytesInText() {
 					return true
 				}
 			}
+		case *ssa.Extract:
+			// the type byte of a client message, as the frame reader hands it out
+			if call, ok := x.Tuple.(*ssa.Call); ok && x.Index == 0 && (isReaderMethod(call, "ReadTypedMsg") || isReaderMethod(call, "ReadType")) {
+				return true
+			}
+		case *ssa.MakeInterface:
+			return rawByte(l, x.X, depth+1)
 		case *ssa.Parameter:
 			// a parameter of a function of the scope: what its callers pass
 			for _, a := range c.argsOfParam(x) {
